@@ -8,6 +8,8 @@ import propcfg
 LEVEL = {
  "C02": ("Machine-checked theorems about the Gallina model of Holder::redact/build: redacting a non-disclosable path changes nothing, the result depends on the set of redactions only, every disclosure that is neither redacted nor below a redacted disclosable claim is presented; tied to /repo by a differential run (library- and reference-issued tokens, bound and unbound) in which the model must reproduce the presentation string and the verifier's claims must equal the original minus the withheld claims.",
          "partial: the end-to-end equation verifier(build(redact R)) = project is exercised by the correspondence run; the theorems are about the holder's selection; composition with the restore theorems (C03) is pending"),
+ "C04": ("Machine-checked exact characterisation (iff) of when the Gallina model of decode accepts (parse, configured algorithm, key family table, signature oracle, object payload, claim checks), the corollary that under an ideal signature oracle only the exact issued token, the configured algorithm and a key of the right family are accepted, and that holder and verifier fail whenever the first segment does not decode; tied to /repo by a differential run over all 13 algorithms with per-position mutations, the full key x algorithm matrix and algorithm-confusion tokens.",
+         "partial: unforgeability is a computational assumption about RustCrypto and enters as the ideal_sig premise; jwt_rustcrypto::decode is modelled, not verified"),
  "C05": ("Machine-checked exact characterisation (iff) of when the Gallina model of Verifier::verify_raw and verify_kb accepts, for all tokens, oracles and policies, with the property's rejections as corollaries; tied to /repo by a differential run over harness-crafted presentations with exactly one key-binding defect of 28 kinds (or none).",
          "partial: signature and policy checking of the KB-JWT inside jwt-rustcrypto is the o_kb oracle, filled from an independent RSA verification"),
  "C06": ("Machine-checked theorems that the holder model never selects the disclosure of a redacted disclosable claim nor of any claim below it, for every holder state and redaction list; tied to /repo by a differential run with unique sentinels in every marked name and scalar value, searching the decoded bytes of the issuer JWT and of every presentation.",
@@ -16,10 +18,14 @@ LEVEL = {
          "partial: freshness of the nonce and correctness of the clock are properties of thread_rng/chrono (oracles); the run checks distinctness and the iat window only"),
  "C03": ("Machine-checked theorems (induction over all annotated trees and all disclosure lists) that the modelled restore algorithm ends in exactly the view determined by the set of presented disclosures, and that stripping a view is the property's projection; tied to /repo by a differential run of Holder::verify, Verifier::verify and Holder::presentation against the extracted model on reference-issued tokens with adversarial lists. Proof is the right level: the quantifier ranges over every list an attacker can type.",
          "partial: theorem currently covers the pass loop for duplicate-free lists (duplicates and the post-pass checks are exercised by the correspondence run only); premises hash_inj and dec_enc idealise SHA-2 collision resistance and base64/JSON round-tripping"),
+ "C16": ("Machine-checked theorem that the translated header's JSON has each set field under the member of the same meaning, no member for unset fields and no other member, for every header value; tied to /repo by a differential run over all 2^9 subsets of optional fields with five value classes and all 13 algorithms through Issuer::header/encode, decode, Holder::verify and Verifier::verify, in which the model's build_header must print the header the token carries.",
+         "partial: serde serialisation and base64/JSON printing of the header are oracles"),
  "C14": ("Machine-checked theorems about the Gallina model of Issuer::encode: it never panics for any claims object, any path strings, any decoy maximum and any random draws; an unresolvable path of each kind is an error at its step, and an error at any position of the list fails the whole call. Tied to /repo by a differential run in which the model must reproduce the produced token exactly from the read-back random choices, over valid markings (also only-nested ones), invalid path lists, decoy maxima in [-3,50] and repeated encode() calls.",
          "partial: 'valid marking => Ok' is exercised by the correspondence run (theorem pending the port of the issuer fold proofs); the clock and RNG are oracles"),
  "C10": ("Machine-checked totality theorems (never Panic, for every string) about a Gallina model of the splitters that mirrors each Rust slice/index operation with a checked primitive; the model is tied to /repo by an exhaustive differential run over all strings on {a . ~} up to a length bound. Proof is the right level because panic-freedom is a universal statement over strings.",
          "partial: panics, aborts and non-termination inside serde_json, base64, jwt-rustcrypto and stack exhaustion are runtime behaviour of code the model treats as oracles"),
+ "C11": ("Machine-checked theorems over the Gallina model of Validation: each builder step changes only the setting it names and sets it to its argument (all policies, all arguments), steps naming different settings commute, build_validation forwards every setting, and validate accepts iff every configured constraint holds (exp/nbf with leeway, aud string/array, iss, sub, required claims); tied to /repo by an exhaustive run over every transition of the builder closure and single-violation tokens for sampled/all reachable policies.",
+         "partial: jwt_rustcrypto::validate lives in a dependency: modelled, validated by the correspondence run; time values that overflow u64 are excluded (known finding KF-1)"),
  "C12": ("Machine-checked rejection lemmas for each rule at the function that implements it (disclosure decoding, object step, structure check, _sd_alg parsing), for all inputs; tied to /repo by a differential run over reference-issued tokens with one seeded defect of 23 kinds at any nesting level and their defect-free twins.",
          "partial: the whole-tree statement 'a defect at any depth rejects' is exercised by the correspondence run; the theorems are per step"),
 }
